@@ -294,6 +294,26 @@ func runC18(o *out, r *rng, thorough bool, replay string) {
 			o.violate("undecodable / empty / malformed / past / too-distant / stale / base-contradicting broadcasts are not admitted", "cx-bad-admitted",
 				map[string]any{"instance": inst, "chain": ids, "ts": ts, "decodes": decodes, "lookahead": lookahead, "has_input": hasInput}, "")
 		}
+		if res == pubsub.ValidationAccept && decodes && kind != 0 && valid {
+			// admitted: the subscription loop caches it a moment later -- by then the participant may have moved on to a later
+			// instance (nothing is pruned by that).  The chain and every prefix must be retrievable for ITS instance.
+			adv := uint64(0)
+			if r.chance(60) {
+				adv = uint64(1 + r.intn(2))
+				prog.ID += adv
+			}
+			px.VerifCacheAsDiscovered(ctx, *msg)
+			for _, pf := range chain.AllPrefixes() {
+				if got, ok := px.GetChainByInstance(ctx, inst, pf.Key()); !ok || !got.Eq(pf) {
+					o.violate("after a chain broadcast is admitted, that chain and every prefix of it can be retrieved by key for that instance", "cx-admitted-not-retrievable",
+						map[string]any{"instance": inst, "chain": ids, "validated_at_instance": cur, "participant_advanced_by": adv, "prefix_len": pf.Len()},
+						"the chain was admitted by the validator, the participant moved on before it was cached, nothing was pruned")
+					break
+				}
+			}
+			prog.ID = cur
+			o.Dist[fmt.Sprintf("admitted-then-advanced-%d", adv)]++
+		}
 		if !bad && res != pubsub.ValidationAccept {
 			o.violate("well-formed timely broadcasts for the current or an allowed future instance are admitted", "cx-good-rejected",
 				map[string]any{"instance": inst, "chain": ids, "ts": ts, "lookahead": lookahead, "has_input": hasInput}, fmt.Sprint(res))
